@@ -145,26 +145,26 @@ func report(eng *Engine, prop, tier string, seed int, verif, outDir string, cfg 
 	var trusted []string
 	trusted = append(trusted, eng.trusted...)
 	cov := map[string]any{
-		"obligations":                claimed,
-		"discharged":                 discharged,
-		"checker_cmd":                fmt.Sprintf("/verif/bin/check %s %s  (govc: go/ssa -> SMT-LIB; z3-new | cvc5 | z3)", prop, tier),
-		"trusted_base":               trusted,
-		"samples":                    samples,
-		"functions_under_contract":   funcs,
-		"abstracted_functions":       abs,
-		"obligations_by_kind":        kinds,
-		"discharged_by_backend":      bySolver,
-		"solver_seconds_total":       round2(solverSecs),
-		"solve_wall_s":               round2(solveWall),
-		"load_s":                     round2(loadSecs),
-		"encode_s":                   round2(encSecs),
-		"known_finding_obligations":  kfObls,
+		"obligations":                  claimed,
+		"discharged":                   discharged,
+		"checker_cmd":                  fmt.Sprintf("/verif/bin/check %s %s  (govc: go/ssa -> SMT-LIB; z3-new | cvc5 | z3)", prop, tier),
+		"trusted_base":                 trusted,
+		"samples":                      samples,
+		"functions_under_contract":     funcs,
+		"abstracted_functions":         abs,
+		"obligations_by_kind":          kinds,
+		"discharged_by_backend":        bySolver,
+		"solver_seconds_total":         round2(solverSecs),
+		"solve_wall_s":                 round2(solveWall),
+		"load_s":                       round2(loadSecs),
+		"encode_s":                     round2(encSecs),
+		"known_finding_obligations":    kfObls,
 		"unclaimed_safety_obligations": len(undecidedNew),
-		"undecided_clauses":          undecidedClauses,
-		"vacuity_covers":             map[string]int{"checked": len(covers), "contradictory": coverFail},
-		"not_covered":                cfg.NotCovered,
-		"contract_files":             eng.contractFiles,
-		"callee_contracts_used":      sortedKeys(calleeContracts),
+		"undecided_clauses":            undecidedClauses,
+		"vacuity_covers":               map[string]int{"checked": len(covers), "contradictory": coverFail},
+		"not_covered":                  cfg.NotCovered,
+		"contract_files":               eng.contractFiles,
+		"callee_contracts_used":        sortedKeys(calleeContracts),
 	}
 	ev := map[string]any{
 		"property_id": prop,
